@@ -170,6 +170,14 @@ func regexAtoms() []*ref.Expr {
 		ref.Bin("^=", ref.Value(), ref.Key()),
 		ref.Bin("^=", ref.Key(), ref.Call("lower", ref.Value())),
 		ref.Bin("^=", ref.Bin("+", ref.Key(), ref.Value()), ref.Bin("+", ref.Key(), ref.S("1"))),
+		// IN lists mixing literals and elements that depend on the pair, in every order
+		ref.In(ref.Value(), ref.Key(), ref.S("2")),
+		ref.In(ref.Value(), ref.S("2"), ref.Key()),
+		ref.In(ref.Value(), ref.S("1"), ref.Key(), ref.S("10")),
+		ref.In(ref.Key(), ref.Call("lower", ref.Value()), ref.S("c")),
+		ref.In(ref.Call("int", ref.Value()), ref.Call("strlen", ref.Key()), ref.N(10)),
+		ref.In(ref.Call("int", ref.Value()), ref.N(10), ref.Call("strlen", ref.Key())),
+		ref.In(ref.Call("strlen", ref.Key()), ref.Call("int", ref.Value()), ref.N(3)),
 	)
 	return out
 }
